@@ -1,0 +1,126 @@
+//! Verification hooks (cargo feature `verif_hooks`, off by default).
+//!
+//! Replaces the `nom_packrat::storage!` thread-local by a thin wrapper around the
+//! real `nom_packrat::PackratStorage` so that a test harness can
+//!   * choose the memo capacity (`Some(n)` / `None` = unbounded) per thread,
+//!   * read hit / miss / insert counters,
+//!   * optionally add the *effective* nom-recursive flags to the memo key.
+//! With the default settings (capacity `Some(1024)`, recursion flags not in the key)
+//! the behaviour is exactly the production behaviour: the extra key component is the
+//! pair `(in_directive, RecursiveInfo::new())` whose second half is a constant.
+
+use crate::*;
+
+pub type Extra = (bool, RecursiveInfo);
+type Key = (&'static str, *const u8, Extra);
+
+pub const DEFAULT_CAPACITY: Option<usize> = Some(1024);
+
+#[derive(Clone, Copy, Debug, Default, PartialEq, Eq)]
+pub struct Counters {
+    pub hits: u64,
+    pub misses: u64,
+    pub inserts: u64,
+    pub clears: u64,
+}
+
+pub struct HookStorage {
+    inner: nom_packrat::PackratStorage<AnyNode, Extra>,
+    capacity: Option<usize>,
+    key_includes_recursion_flags: bool,
+    counters: Counters,
+}
+
+impl HookStorage {
+    fn new() -> Self {
+        HookStorage {
+            inner: nom_packrat::PackratStorage::new(DEFAULT_CAPACITY),
+            capacity: DEFAULT_CAPACITY,
+            key_includes_recursion_flags: false,
+            counters: Counters::default(),
+        }
+    }
+
+    fn normalize(&self, key: &Key) -> Key {
+        let (name, ptr, (in_directive, info)) = *key;
+        // The recursion flags only matter when they were set at this very position;
+        // a recursive parser entered at another position clears them first.
+        let info = if self.key_includes_recursion_flags && info.get_ptr() == ptr {
+            info
+        } else {
+            RecursiveInfo::new()
+        };
+        (name, ptr, (in_directive, info))
+    }
+
+    pub fn get(&mut self, key: &Key) -> Option<&Option<(AnyNode, usize)>> {
+        let key = self.normalize(key);
+        let ret = self.inner.get(&key);
+        if ret.is_some() {
+            self.counters.hits += 1;
+        } else {
+            self.counters.misses += 1;
+        }
+        ret
+    }
+
+    pub fn insert(&mut self, key: Key, value: Option<(AnyNode, usize)>) {
+        let key = self.normalize(&key);
+        self.counters.inserts += 1;
+        self.inner.insert(key, value);
+    }
+
+    pub fn clear(&mut self) {
+        self.counters.clears += 1;
+        self.inner.clear();
+    }
+}
+
+impl HasExtraState<Extra> for SpanInfo {
+    fn get_extra_state(&self) -> Extra {
+        (in_directive(), self.recursive_info)
+    }
+}
+
+thread_local!(
+    pub(crate) static PACKRAT_STORAGE: core::cell::RefCell<HookStorage> = {
+        core::cell::RefCell::new(HookStorage::new())
+    }
+);
+
+/// Re-create this thread's memo table with the given capacity (`None` = unbounded).
+/// `Some(0)` is not meaningful for the underlying table and is treated as `Some(1)`.
+pub fn set_capacity(capacity: Option<usize>) {
+    let capacity = capacity.map(|x| x.max(1));
+    PACKRAT_STORAGE.with(|storage| {
+        let mut storage = storage.borrow_mut();
+        storage.inner = nom_packrat::PackratStorage::new(capacity);
+        storage.capacity = capacity;
+    });
+}
+
+pub fn capacity() -> Option<usize> {
+    PACKRAT_STORAGE.with(|storage| storage.borrow().capacity)
+}
+
+/// Switch the recursion-aware key on or off for this thread (off = production key).
+pub fn set_key_includes_recursion_flags(on: bool) {
+    PACKRAT_STORAGE.with(|storage| {
+        let mut storage = storage.borrow_mut();
+        storage.key_includes_recursion_flags = on;
+        storage.inner.clear();
+    });
+}
+
+pub fn counters() -> Counters {
+    PACKRAT_STORAGE.with(|storage| storage.borrow().counters)
+}
+
+pub fn reset_counters() {
+    PACKRAT_STORAGE.with(|storage| storage.borrow_mut().counters = Counters::default());
+}
+
+/// Depth of the thread-local directive stack and keyword-version stack (read only).
+pub fn state_depths() -> (usize, usize) {
+    (directive_depth(), version_depth())
+}
